@@ -67,7 +67,7 @@ class Event:
 
 class PathCtx:
     """state of one explored path"""
-    FEAS_TIMEOUT_MS = 1500
+    FEAS_TIMEOUT_MS = 250
 
     def __init__(self, prefix=()):
         self.prefix = list(prefix)
